@@ -23,7 +23,8 @@ func TestProp(t *testing.T) {
 		"only the yield windows of the verif hooks plus the gates in the fake data source / pre-fetch hook / writer are scheduled; interleavings inside sync.Map, channel operations and the runtime are sampled by the -race stress part only",
 		"a participant that is neither parked nor finished is taken to be blocked in the follower wait when its goroutine is in state select inside GetOrCreate / loadByContext (runtime.Stack); the clock is used for watchdogs only (expiry = discarded case, or 'wedged' when the same blocking call is seen twice)",
 		"the fake data source answers like an HTTP client: it returns the context error when the request context is cancelled; out_alone is computed on a fresh resolver with nothing else in flight",
-		"a follower may legitimately receive the upstream failure of the shared work (upstream failures are not deterministic); it may never receive a failure caused by another participant's cancellation",
+		"a follower may legitimately receive the upstream failure of the shared work (upstream failures are not deterministic); it may never receive a failure that is private to another participant: its cancellation, its own deadline (however the transport words the aborted call), or the failure of its client connection while the response is written",
+		"a participant whose own context has ended may return anything of {its context error, an abort error, out_alone, out_alone-with-failed-upstream}: nobody is listening",
 	)
 	if os.Getenv("VERIF_RACE") == "1" {
 		// race-detector build (thorough only): real goroutines, no scheduler
@@ -33,7 +34,9 @@ func TestProp(t *testing.T) {
 	}
 	r.RequireLabel("shared", "joined:inbound-follower", "joined:subgraph-follower", "parked:before_add", "parked:finish_ok", "parked:before_close",
 		"parked:joined", "parked:loaded", "parked:write", "aliasing:follower-bytes-taken-after-poison", "multi-key-in-flight",
-		"optype:mutation", "cancel:fired:waiting-for-leader")
+		"optype:mutation", "cancel:fired:waiting-for-leader",
+		"slot:leader-gave-up-while-queued-with-followers", "write-fail:leader-with-followers",
+		"deadline:subgraph-leader-expired-with-followers", "opaque:subgraph-leader-aborted-with-followers")
 	r.Regress(dispatch())
 	r.RunProbes(probes())
 	// the scheduled parts have one or two runnable goroutines at a time; fewer Ps make the
